@@ -1,6 +1,274 @@
-// W3 placeholder (filled in below in this file's real implementation).
+// W3: object histories.  A final map M is chosen first; two construction
+// histories of M (different insertion orders and routes) are generated and
+// observed with print / for / == / reads.  Reference model: a byte-ordered
+// sorted map.
+
 use crate::programs::Picked;
 use crate::rng::Rng;
-pub fn pick(_rng: &mut Rng) -> Picked {
-    Picked { label: "W3:stub".into(), program: b"o := {\"b\": 1, \"a\": 2}\nprint(o)\n".to_vec(), aux: serde_json::Value::Null }
+use crate::w2::ir::{render, Val};
+use serde_json::{json, Value as J};
+use std::collections::BTreeMap;
+
+const KEYS: &[&str] = &[
+    "a", "b", "B", "aa", "", " ", "é", "z", "10", "9", "key with space", "K", "k", "_x", "ü", "~", "A", "ab", "a b", "Z", "zz", "0", "-", "日本", "if", "x1",
+];
+
+pub struct W3Prog {
+    pub text: Vec<u8>,
+    pub stdout: Vec<u8>,
+    pub nkeys: usize,
+    pub routes: Vec<String>,
+    pub observations: Vec<String>,
+}
+
+fn lit_str(s: &str) -> String {
+    let mut t = String::from("\"");
+    for ch in s.chars() {
+        match ch {
+            '"' => t.push_str("\\\""),
+            '\\' => t.push_str("\\\\"),
+            '$' => t.push_str("\\$"),
+            '\n' => t.push_str("\\n"),
+            c => t.push(c),
+        }
+    }
+    t.push('"');
+    t
+}
+
+fn lit_val(v: &Val) -> String {
+    match v {
+        Val::Int(n) => format!("{n}"),
+        Val::Str(s) => lit_str(s),
+        Val::Bool(b) => format!("{b}"),
+        Val::Null => "null".into(),
+        Val::List(xs) => format!("[{}]", xs.iter().map(lit_val).collect::<Vec<_>>().join(", ")),
+        Val::Obj(m) => format!("{{{}}}", m.iter().map(|(k, v)| format!("{}: {}", lit_str(k), lit_val(v))).collect::<Vec<_>>().join(", ")),
+        Val::Fn(_) => "null".into(),
+    }
+}
+
+fn ident_like(k: &str) -> bool {
+    let kw = ["break", "continue", "else", "false", "fn", "for", "if", "in", "null", "return", "true", "while", "_"];
+    !k.is_empty()
+        && !kw.contains(&k)
+        && k.chars().next().map(|c| c.is_ascii_alphabetic() || c == '_').unwrap_or(false)
+        && k.chars().all(|c| c.is_ascii_alphanumeric() || c == '_')
+}
+
+fn junk(rng: &mut Rng) -> Val {
+    if rng.chance(1, 2) { Val::Int(rng.range(-50, 50)) } else { Val::Str("junk".into()) }
+}
+
+// Statements that build object `name` with exactly the pairs of `m`, in the
+// insertion order `order`, along a random route.  Returns the route label.
+fn construct(rng: &mut Rng, name: &str, m: &BTreeMap<String, Val>, order: &[String], out: &mut String, tmp: &mut usize) -> String {
+    let route = rng.below(6);
+    match route {
+        0 => {
+            // one literal, pairs in insertion order, with overwritten duplicates
+            let mut items = vec![];
+            for k in order {
+                if rng.chance(1, 5) {
+                    items.push(format!("{}: {}", lit_str(k), lit_val(&junk(rng))));
+                }
+            }
+            // duplicates must come before the final entry of the same key
+            let mut finals = vec![];
+            for k in order {
+                finals.push(format!("{}: {}", lit_str(k), lit_val(&m[k])));
+            }
+            items.extend(finals);
+            out.push_str(&format!("{name} := {{{}}}\n", items.join(", ")));
+            "literal".into()
+        }
+        1 | 2 => {
+            out.push_str(&format!("{name} := {{}}\n"));
+            for k in order {
+                let v = &m[k];
+                let target = if route == 2 && ident_like(k) && rng.chance(2, 3) { format!("{name}.{k}") } else { format!("{name}[{}]", lit_str(k)) };
+                match (v, rng.below(4)) {
+                    (Val::Int(n), 0) => {
+                        let d = rng.range(-9, 9);
+                        out.push_str(&format!("{target} = {}\n", n - d));
+                        let t2 = if ident_like(k) && rng.chance(1, 2) { format!("{name}.{k}") } else { format!("{name}[{}]", lit_str(k)) };
+                        out.push_str(&format!("{t2} += {d}\n"));
+                    }
+                    (Val::Str(s), 0) if s.is_ascii() && !s.is_empty() => {
+                        let cut = rng.usize_below(s.len() + 1);
+                        out.push_str(&format!("{target} = {}\n", lit_str(&s[..cut])));
+                        out.push_str(&format!("{target} += {}\n", lit_str(&s[cut..])));
+                    }
+                    (_, 1) => {
+                        out.push_str(&format!("{target} = {}\n", lit_val(&junk(rng))));
+                        out.push_str(&format!("{name}[{}] = {}\n", lit_str(k), lit_val(v)));
+                    }
+                    _ => out.push_str(&format!("{target} = {}\n", lit_val(v))),
+                }
+            }
+            if route == 1 { "incremental-index".into() } else { "incremental-prop".into() }
+        }
+        3 => {
+            // spread of a partial object, then the rest
+            let cut = rng.usize_below(order.len() + 1);
+            *tmp += 1;
+            let p = format!("part{tmp}");
+            let first: Vec<String> = order[..cut].iter().map(|k| format!("{}: {}", lit_str(k), lit_val(&m[k]))).collect();
+            out.push_str(&format!("{p} := {{{}}}\n", first.join(", ")));
+            let rest: Vec<String> = order[cut..].iter().map(|k| format!("{}: {}", lit_str(k), lit_val(&m[k]))).collect();
+            let mut items = vec![];
+            if rng.chance(1, 2) {
+                items.push(format!("{p}.."));
+                items.extend(rest);
+            } else {
+                // overwritten by the spread that follows? no: later entries win, so put junk first
+                for k in &order[..cut] {
+                    if rng.chance(1, 3) {
+                        items.push(format!("{}: {}", lit_str(k), lit_val(&junk(rng))));
+                    }
+                }
+                items.extend(rest);
+                items.push(format!("{p}.."));
+            }
+            out.push_str(&format!("{name} := {{{}}}\n", items.join(", ")));
+            "spread".into()
+        }
+        4 => {
+            // collected rest of a destructuring of a bigger object
+            *tmp += 1;
+            let big = format!("big{tmp}");
+            let mut all: Vec<String> = order.to_vec();
+            let extra: Vec<String> = (0..(1 + rng.usize_below(3))).map(|i| format!("drop{i}")).collect();
+            all.extend(extra.iter().cloned());
+            rng.shuffle(&mut all);
+            let items: Vec<String> = all.iter().map(|k| if extra.contains(k) { format!("{}: 0", lit_str(k)) } else { format!("{}: {}", lit_str(k), lit_val(&m[k])) }).collect();
+            out.push_str(&format!("{big} := {{{}}}\n", items.join(", ")));
+            let pats: Vec<String> = extra.iter().map(|k| format!("{}: _", lit_str(k))).collect();
+            out.push_str(&format!("{{{}, ..{name}}} := {big}\n", pats.join(", ")));
+            "destructure-rest".into()
+        }
+        _ => {
+            // shorthand {a} for identifier keys, pairs for the rest
+            let mut items = vec![];
+            for k in order {
+                if ident_like(k) && rng.chance(1, 2) {
+                    *tmp += 1;
+                    out.push_str(&format!("{{\n{k} := {}\n{name}_sh{tmp} := {{{k}}}\n}}\n", lit_val(&m[k])));
+                }
+                items.push(format!("{}: {}", lit_str(k), lit_val(&m[k])));
+            }
+            out.push_str(&format!("{name} := {{{}}}\n", items.join(", ")));
+            "literal-shorthand".into()
+        }
+    }
+}
+
+pub fn build(aux: &J) -> W3Prog {
+    let seed = aux.get("w3_seed").and_then(J::as_u64).unwrap_or(1);
+    let mut rng = Rng::new(seed);
+    let nobj = 1 + rng.usize_below(3);
+    let mut text = String::new();
+    let mut expect = String::new();
+    let mut routes = vec![];
+    let mut observations = vec![];
+    let mut tmp = 0usize;
+    let mut maxkeys = 0;
+    for oi in 0..nobj {
+        // final map
+        let nk = match rng.below(10) {
+            0 => 0,
+            1..=5 => 1 + rng.usize_below(5),
+            6..=8 => 4 + rng.usize_below(8),
+            _ => 12 + rng.usize_below(29),
+        };
+        let mut m: BTreeMap<String, Val> = BTreeMap::new();
+        let mut pool: Vec<String> = KEYS.iter().map(|s| s.to_string()).collect();
+        for i in 0..40 {
+            pool.push(format!("k{i:02}"));
+        }
+        rng.shuffle(&mut pool);
+        for k in pool.into_iter().take(nk) {
+            let v = match rng.below(6) {
+                0 => Val::Str(["x", "hello", "żółw", "two\nlines", ""][rng.usize_below(5)].to_string()),
+                1 => Val::List(vec![Val::Int(1), Val::Str("s".into())]),
+                2 => {
+                    let mut inner = BTreeMap::new();
+                    inner.insert("q".to_string(), Val::Int(rng.range(0, 9)));
+                    inner.insert("b".to_string(), Val::Null);
+                    Val::Obj(inner)
+                }
+                _ => Val::Int(rng.range(-100, 100)),
+            };
+            m.insert(k, v);
+        }
+        maxkeys = maxkeys.max(m.len());
+        let keys: Vec<String> = m.keys().cloned().collect();
+        let mut order_a = keys.clone();
+        rng.shuffle(&mut order_a);
+        let mut order_b = keys.clone();
+        rng.shuffle(&mut order_b);
+        if rng.chance(1, 4) {
+            order_b = keys.iter().rev().cloned().collect();
+        }
+        let a = format!("oa{oi}");
+        let b = format!("ob{oi}");
+        routes.push(construct(&mut rng, &a, &m, &order_a, &mut text, &mut tmp));
+        routes.push(construct(&mut rng, &b, &m, &order_b, &mut text, &mut tmp));
+        let mv = Val::Obj(m.clone());
+        // observations
+        for name in [&a, &b] {
+            if rng.chance(3, 4) {
+                text.push_str(&format!("print({name})\n"));
+                expect.push_str(&render(&mv));
+                expect.push('\n');
+                observations.push("print".into());
+            }
+            if rng.chance(3, 4) {
+                text.push_str(&format!("for [k, v] in {name} {{\n    print(k)\n    print(v)\n}}\n"));
+                for (k, v) in &m {
+                    expect.push_str(k);
+                    expect.push('\n');
+                    expect.push_str(&render(v));
+                    expect.push('\n');
+                }
+                observations.push("for".into());
+            }
+        }
+        text.push_str(&format!("print({a} == {b})\n"));
+        expect.push_str("true\n");
+        observations.push("==".into());
+        if rng.chance(1, 2) {
+            text.push_str(&format!("print({b} != {a})\n"));
+            expect.push_str("false\n");
+        }
+        if rng.chance(1, 2) {
+            text.push_str(&format!("print([{a}] == [{b}])\n"));
+            expect.push_str("true\n");
+        }
+        // nested: the object as a property of another, printed
+        if rng.chance(1, 3) {
+            text.push_str(&format!("print({{\"outer\": {a}, \"n\": 1}})\n"));
+            let mut o = BTreeMap::new();
+            o.insert("outer".to_string(), mv.clone());
+            o.insert("n".to_string(), Val::Int(1));
+            expect.push_str(&render(&Val::Obj(o)));
+            expect.push('\n');
+            observations.push("print-nested".into());
+        }
+        if let Some(k) = keys.first() {
+            if rng.chance(1, 2) {
+                text.push_str(&format!("print({b}[{}])\n", lit_str(k)));
+                expect.push_str(&render(&m[k]));
+                expect.push('\n');
+                observations.push("read".into());
+            }
+        }
+    }
+    W3Prog { text: text.into_bytes(), stdout: expect.into_bytes(), nkeys: maxkeys, routes, observations }
+}
+
+pub fn pick(rng: &mut Rng) -> Picked {
+    let aux = json!({"w3_seed": rng.next_u64() >> 1});
+    let p = build(&aux);
+    Picked { label: format!("W3:{}", aux["w3_seed"]), program: p.text, aux }
 }
